@@ -24,8 +24,12 @@ func randomSchemas(n int, seed int64, workDir string) (string, []string, error) 
 		go func(i int) {
 			defer wg.Done()
 			steps := 10 + (i%3)*6
+			maxFields := 6 + i%5
+			if limit := 2 + 3*maxFields; steps > limit {
+				steps = limit // the construction machine stops when every message is full
+			}
 			res, err := RunTLC(filepath.Join(workDir, fmt.Sprintf("w%d", i)), TLCOpts{Spec: "Schema", Cfg: "Schema.cfg", Workers: 1, Timeout: 10 * time.Minute,
-				Env:   map[string]string{"VERIF_MAXMSGS": "3", "VERIF_MAXFIELDS": fmt.Sprint(6 + i%5), "VERIF_STEPS": fmt.Sprint(steps), "VERIF_TAG": fmt.Sprintf("s%dn%d", seed, i), "VERIF_EXPORT": "1"},
+				Env:   map[string]string{"VERIF_MAXMSGS": "3", "VERIF_MAXFIELDS": fmt.Sprint(maxFields), "VERIF_STEPS": fmt.Sprint(steps), "VERIF_TAG": fmt.Sprintf("s%dn%d", seed, i), "VERIF_EXPORT": "1"},
 				Extra: []string{"-simulate", "num=1", "-depth", fmt.Sprint(steps + 1), "-seed", fmt.Sprint(seed*1000 + int64(i))}})
 			mu.Lock()
 			defer mu.Unlock()
@@ -199,6 +203,12 @@ func init() {
 				jobs = append(jobs, ReflJob{t.Name, "", c.pick(1, 2), 0})
 			}
 		}
+		// ... and the bounded-exhaustive histories of the corpus types, which are fresh code too
+		for _, j := range reflJobs(c) {
+			if strings.HasPrefix(j.Type, "verif.") {
+				jobs = append(jobs, j)
+			}
+		}
 		verdicts, st := runMCReflect(c, jobs)
 		for _, v := range verdicts {
 			if v.Who != "pulsar" {
@@ -212,6 +222,8 @@ func init() {
 		c.R.AddCount("transitions", st.Transitions)
 		c.R.AddCount("traces_validated_against_impl", st.Edges)
 		c.R.Cov["random_schema_reflect_edges"] = st.Edges
+		// long random histories on every fresh type (random schemas included)
+		reflectTraceRun(c, c.pick(3, 12), c.pick(40, 120), func(what, op string) bool { return true })
 		c.S.Types = saved
 		c.R.Cov["rule"] = "programs = schema groups (static matrix/names/cross-package corpus, probes, TLC-simulated random schemas); each is generated by the working-tree plugin, compiled, and its types run through the codec trace validation and reflection replay"
 	}})
